@@ -8,4 +8,5 @@ CONSTANTS
 INIT Init
 NEXT Next
 VIEW View
-INVARIANTS TypeOK AtMostOnce AcceptsFresh Refines HighestIsNewest NewestIsMax
+INVARIANTS TypeOK Refines HighestIsNewest NewestIsMax
+PROPERTIES AtMostOnceA AcceptsFreshA
